@@ -29,7 +29,7 @@ func Gen(t *rapid.T) *Case {
 			h.N = rapid.IntRange(1, c.Publishes).Draw(t, "n")
 		}
 		if h.Panic != "" {
-			h.ValKind = rapid.SampledFrom([]string{"string", "error", "int", "struct", "nilerrptr", "badstringer", "nil"}).Draw(t, "val")
+			h.ValKind = rapid.SampledFrom([]string{"string", "error", "int", "struct", "nilerrptr", "badstringer", "nil", "slice", "map", "structslice"}).Draw(t, "val")
 		}
 		h.Replay = c.Store && !h.Ctx && rapid.Bool().Draw(t, "replaySub")
 		c.Handlers = append(c.Handlers, h)
